@@ -96,3 +96,13 @@ Proof.
   destruct Hsz; subst; now rewrite andb_false_r.
 Qed.
 End Top.
+
+Lemma program_arithmetic : forall s dims,
+  sel_lens s (length dims) -> Hs.axes_valid (axes_of_sel s) dims -> Hs.prodN dims < 4294967296 -> dims <> [] ->
+  out_size s = Hs.out_elems (axes_of_sel s) /\
+  is_contig s dims = Hs.is_contiguous_selection (axes_of_sel s) dims /\
+  (forall i, (i < length dims)%nat -> sel_idx s dims i = Hs.axis_idx (nth i (axes_of_sel s) (Hs.mkAxis 0 0 0 0))).
+Proof.
+  intros s dims HL HV HP Hne.
+  exact (conj (out_size_eq s dims HL HV HP Hne) (conj (is_contig_eq s dims HL HV HP) (fun i => sel_idx_eq s dims i HL HV HP))).
+Qed.
